@@ -8,13 +8,19 @@ import (
 
 // LitAlphabet is deliberately tiny and built to collide: shared prefixes, wildcard characters inside
 // and at the start of literal segments (the latter need escaping in expressions).
-var LitAlphabet = []string{"a", "b", "ab", "abc", "a:b", "a*", ":a", "*a", "b:"}
+// A segment may also consist of nothing but a character which needs escaping (":", "*"), or look like an unnamed wildcard.
+var LitAlphabet = []string{"a", "b", "ab", "abc", "a:b", "a*", ":a", "*a", "b:", ":", "*", "**", ":*"}
+
+// BackslashLits are used at the level of the tree only (ExprStyle.Backslash): a request path never reaches the tree with
+// a backslash in it, as the request context hands it over percent-encoded.
+var BackslashLits = []string{"\\", "\\a", "\\:"}
 
 // ExprStyle fixes the naming of wildcards for one case. The tree identifies expressions structurally
 // and rejects the same structure with different wildcard names, so names are canonical per position.
 type ExprStyle struct {
 	UnnamedSingle bool   // ":*" instead of ":p<i>"
 	FreeName      string // "rest" or "*" (unnamed "**")
+	Backslash     bool   // literal segments starting with a backslash are generated too
 }
 
 func GenStyle(t *rapid.T) ExprStyle {
@@ -40,7 +46,12 @@ func GenExpr(t *rapid.T, st ExprStyle, label string) Expr {
 
 	for i := 0; i < n; i++ {
 		if rapid.IntRange(0, 9).Draw(t, label+".k") < 6 {
-			e = append(e, Seg{Kind: Lit, Lit: rapid.SampledFrom(LitAlphabet).Draw(t, label+".lit")})
+			alphabet := LitAlphabet
+			if st.Backslash {
+				alphabet = append(append([]string(nil), LitAlphabet...), BackslashLits...)
+			}
+
+			e = append(e, Seg{Kind: Lit, Lit: rapid.SampledFrom(alphabet).Draw(t, label+".lit")})
 		} else {
 			e = append(e, st.single(i+1))
 		}
@@ -56,7 +67,7 @@ func GenExpr(t *rapid.T, st ExprStyle, label string) Expr {
 	return e
 }
 
-var fillSegs = []string{"a", "b", "ab", "abc", "a:b", "a*", ":a", "*a", "b:", "x", "zz", "abcd"}
+var fillSegs = []string{"a", "b", "ab", "abc", "a:b", "a*", ":a", "*a", "b:", "x", "zz", "abcd", ":", "*", "**", ":*"}
 
 // Instantiate produces a raw request path matched by e.
 func Instantiate(t *rapid.T, e Expr, label string) string {
